@@ -181,6 +181,25 @@ func (r *Runner) StartAuth(users map[string]string) (*AuthProc, error) {
 	return r.StartAuthAt("", users)
 }
 
+// UserEntries lays a user map out as the list of a user file. A key "name#first" is an EARLIER entry for `name`
+// that a later entry of the list (the key "name") replaces: a user file may name a user twice, the last entry counts.
+func UserEntries(users map[string]string) [][2]string {
+	names := make([]string, 0, len(users))
+	for n := range users {
+		names = append(names, n)
+	}
+	sort.Strings(names)
+	var first, rest [][2]string
+	for _, n := range names {
+		if strings.HasSuffix(n, "#first") {
+			first = append(first, [2]string{strings.TrimSuffix(n, "#first"), users[n]})
+		} else {
+			rest = append(rest, [2]string{n, users[n]})
+		}
+	}
+	return append(first, rest...)
+}
+
 // StartAuthAt starts the service on a given socket path ("" = a fresh one).
 func (r *Runner) StartAuthAt(sockPath string, users map[string]string) (*AuthProc, error) {
 	dir, err := os.MkdirTemp(r.Work, "auth-")
@@ -189,14 +208,9 @@ func (r *Runner) StartAuthAt(sockPath string, users map[string]string) (*AuthPro
 	}
 	var sb strings.Builder
 	sb.WriteString("Users:\n")
-	names := make([]string, 0, len(users))
-	for n := range users {
-		names = append(names, n)
-	}
-	sort.Strings(names)
-	for _, n := range names {
-		un, _ := json.Marshal(n)
-		pw, _ := json.Marshal(users[n])
+	for _, e := range UserEntries(users) {
+		un, _ := json.Marshal(e[0])
+		pw, _ := json.Marshal(e[1])
 		fmt.Fprintf(&sb, " - {Username: %s, Password: %s}\n", un, pw)
 	}
 	conf := filepath.Join(dir, "rdpgw-auth.yaml")
